@@ -157,12 +157,17 @@ def run_grid(arg, r):
               "expected_label": [1, 0, 2, 3, 3]}, 1)
 
 
+_SHARED_STOI = {}      # one dict object, re-filled in place for every vocabulary (same id, often same size)
+
+
 def run_batch(arg, r):
     k, nsh = arg
     strings = all_strings(2)
     for vi, stoi in enumerate(vocabularies()):
         if vi % nsh != k:
             continue
+        _SHARED_STOI.clear()
+        _SHARED_STOI.update(stoi)
         itos = {i: s for s, i in stoi.items()}
         M = len(stoi)
         r.states += 1
@@ -177,6 +182,15 @@ def run_batch(arg, r):
                 r.transitions += 1
                 got = call(_SF.batch_selfies_to_flat_hot, list(batch), dict(stoi), pad)
                 case = {"kind": "batch", "batch": batch, "vocab": stoi, "pad": pad}
+                if len(batch) == 2:
+                    # the same call through a dict *object* that earlier calls saw with other contents, and through a
+                    # freshly built literal-style dict (whose address may be a recycled one)
+                    for alt in (_SHARED_STOI, {a: b for a, b in stoi.items()}):
+                        g2 = call(_SF.batch_selfies_to_flat_hot, list(batch), alt, pad)
+                        r.evaluations += 1
+                        if g2 != got:
+                            r.violation("batch-encode:depends-on-vocabulary-object-identity", case,
+                                        "same vocabulary contents, different dict object: %r vs %r" % (g2, got))
                 if any(enc[s] is None for s in batch):
                     if got[0] != "raises":
                         r.violation("batch-encode:should-raise", case, "returned %r" % (got[1],))
